@@ -239,7 +239,8 @@ def run(F, rep):
     c09.alpha_rules(F, rep, "C01")
     c09.empty_rules(F, rep, "C01")     # "empty delta = copy of the reference" is only sound if the encoder emits it for equal segments only
     c09.pred_rules(F, rep, "C01")
-    c09.back_rules(F, rep, "C01")      # the LZ encoder's backward-extension budget: a delta that decodes short breaks the round trip
+    c09.back_rules(F, rep, "C01")
+    c09.roll_rules(F, rep, "C01")      # a stale rolling key code lets the encoder emit a match over symbols it never compared      # the LZ encoder's backward-extension budget: a delta that decodes short breaks the round trip
 
 
 GROW = re.compile(r"Vec::<T, A>::(push|insert|extend\w*|append)$")
